@@ -804,9 +804,17 @@ def traced_with_fault(fp, thunk, k, fault, ST, note_fault, reset, io, warnings):
         return None
 
     def loc(frame, event, arg):
-        if event == "line":
+        if event == "exception" and arg and arg[0] is GeneratorExit:
+            fp._closing = frame
+        elif event == "line":
             fp.count += 1
             if fp.target is not None and fp.count == fp.target and not fp.fired:
+                if getattr(fp, "_closing", None) is frame:
+                    # a generator being finalised is not a fault site before 3.12 (see vlib/failpoints.py)
+                    from vlib import failpoints as _fpmod
+                    _fpmod.SKIPPED_IN_GENERATOR_CLOSE[0] += 1
+                    fp.target = None
+                    return loc
                 fp.fired = True
                 fp.fired_at = (frame.f_code.co_name, frame.f_lineno)
                 note_fault(real_exc, ("line", k))
